@@ -437,19 +437,19 @@ class HistSim(Sim):
         if via == "tensor":
             ids = [i for i in ev["ids"] if i in st.T and st.meta[i]["kind"] == "leaf"]
             for i in ids:
-                st.T[i].zero_()
+                st.must("C04.reset_raises", f"zero_() on leaf {i}", st.T[i].zero_)
             reset = ids
         elif via == "module":
             if st.module is None:
                 st.skipped += 1
                 return
-            st.module.zero_grad()
+            st.must("C04.reset_raises", "Module.zero_grad()", st.module.zero_grad)
             reset = [i for i in st.module_ids if st.meta[i]["rg"]]
         else:
             if st.opt is None:
                 st.skipped += 1
                 return
-            st.opt.zero_grad()
+            st.must("C04.reset_raises", "Optimizer.zero_grad()", st.opt.zero_grad)
             reset = list(st.opt_ids)
         st.probes["zero_via_" + via] += 1
         for i in reset:
